@@ -29,7 +29,8 @@ std::vector<std::string> alphabet(const std::string &d)
 {
     if (d == "func") return { "(", ")", "<", ">", "[", "]", "::", " ", "a", "operator", "()", "*", "&", ",", "lambda", "const", "+", "-", "(*", ")(", "{", "}", "#", "=", "~", "with " };
     if (d == "pattern") return { "%", "{", "}", ":", "?", ",", "<", ">", "^", "!", "0", "9", "a", " ", "if-", "endif", "time ", "shortfile ", "message", "%{", "-", "*", "func", "if-debug", "\xe2\x80\x8b", "type",
-                                   "%{o?", ",-9", ",-99", "%{o?,2147483647}", "%{o?2147483647,-2147483648}" };   // composite tokens: an optional attribute (absent from the message), signed and extreme remove counts
+                                   "%{o?", ",-9", ",-99", "%{o?,2147483647}", "%{o?2147483647,-2147483648}",
+                                   "%{type:<4294967306}", "%{message:*^18446744073709551628}", "%{type:4294967299!}", "%{type:>99999999999999999999!}", ":<", "4294967297", "!}" };   // widths beyond 2^32 / 2^64 (a hand-written number parser wraps)   // composite tokens: an optional attribute (absent from the message), signed and extreme remove counts
     if (d == "rules") return { "a", ".", "*", "=", "true", "false", ";", "\n", " ", "debug", "+", "[", "(", ")", "\\", "|", "?", "critical", "]", "{" };
     return { "a", "b", "\n", " ", "\xf0\x9f\x98\x80", "(", "\\", "\"", "%", "\x01", ".", "*", "\xcc\x81", "\xe2\x80\xae" };   // message
 }
@@ -37,7 +38,7 @@ std::vector<std::string> alphabet(const std::string &d)
 // --- one case per domain ------------------------------------------------------------------------------------------
 PatternFormatter *g_funcFmt, *g_functionFmt;
 std::vector<QSharedPointer<RegExpFilter>> g_rx;
-PrettyFormatter *g_pretty, *g_prettyColor; JsonFormatter *g_json; SentryFormatter *g_sentry;
+PrettyFormatter *g_pretty, *g_prettyColor, *g_prettyWide, *g_prettyHuge; JsonFormatter *g_json; SentryFormatter *g_sentry;
 PatternFormatter *g_patAll;
 
 LogMessage mk(int type, const char *file, const char *func, const char *cat, const QString &msg)
@@ -88,6 +89,9 @@ void caseMessage(const std::string &s)
         if (t <= 1) {
             QString o = g_pretty->format(m) + g_prettyColor->format(m) + g_json->format(m) + g_patAll->format(m);
             (void)g_sentry->format(m);
+            // column state kept between messages: a formatter with a wide category limit sees this text as category, then short categories
+            auto d = mk(t, "f.cpp", "fn", "default", text), c = mk(t, "f.cpp", "fn", "c", text);
+            o += g_prettyWide->format(m) + g_prettyWide->format(d) + g_prettyWide->format(c) + g_prettyHuge->format(m) + g_prettyHuge->format(d) + g_prettyHuge->format(c);
             v += std::to_string(o.size() % 7);
         }
     }
@@ -134,8 +138,8 @@ int main(int argc, char **argv)
 
     PatternFormatter ff(QStringLiteral("%{func}|%{func:>12!}|%{shortfile}|%{shortfile /p}")), fF(QStringLiteral("%{function}|%{file}|%{function:^9!}"));
     g_funcFmt = &ff; g_functionFmt = &fF;
-    PrettyFormatter pr(false, 15), prc(true, 3); JsonFormatter js(true); SentryFormatter se;
-    g_pretty = &pr; g_prettyColor = &prc; g_json = &js; g_sentry = &se;
+    PrettyFormatter pr(false, 15), prc(true, 3), prw(false, 64), prh(true, 4096); JsonFormatter js(true); SentryFormatter se;
+    g_pretty = &pr; g_prettyColor = &prc; g_prettyWide = &prw; g_prettyHuge = &prh; g_json = &js; g_sentry = &se;
     PatternFormatter pa(QStringLiteral("%{time} [%{category:<6!}] %{type:^9} %{message:>20!} %{v?1,1}|%{func}@%{shortfile}:%{line} %{if-fatal}F%{endif}%{threadid}"));
     g_patAll = &pa;
     const char *RX[] = { "a", "^a+$", "(a|b)*c", "(a*)*b", "(a+)+$", "^(\\s*\\S+)*$", "[ab]{2,}", "\\x{1F600}", ".", "^$", "(?i)A\\b", "(\\()" };
